@@ -4,7 +4,8 @@
    canonical output the real discoverychain.Compile produced over repeated runs.
    A store case: a sequence of EnsureConfigEntry / DeleteConfigEntry calls on a real
    state.Store with the observed accept/reject verdicts and the stored set after each. *)
-From Verif Require Import Base.Prelude Chain.Model.
+From Verif Require Import Base.Prelude.
+From Verif Require Import Chain.Model.
 Local Open Scope string_scope.
 Local Open Scope list_scope.
 
